@@ -373,7 +373,7 @@ func bruteForce(c *ctx, n int, leaves [][]byte, root []byte, proofs []*merkle.Si
 				for li, leaf := range leafSet {
 					ok, pn := verify(proofs[i], idx, tot, leaf)
 					if pn {
-						return
+						continue
 					}
 					genuine := li == i && idx == i && tot == n
 					switch {
@@ -425,7 +425,7 @@ func bruteForce(c *ctx, n int, leaves [][]byte, root []byte, proofs []*merkle.Si
 				for li, leaf := range leafSet {
 					ok, pn := verify(m, idx, n, leaf)
 					if pn {
-						return
+						continue
 					}
 					if ok {
 						// a mutation may turn the proof of leaf i into the genuine proof of another leaf (aunt replaced by
